@@ -548,7 +548,7 @@ func TestCheck(t *testing.T) {
 		judge(r, t, sc, map[bool]string{true: "gap", false: "model"}[sc.Gap])
 		return
 	}
-	n := r.Pick(30000, 600000)
+	n := r.Pick(30000, 3000000)
 	for i := 0; i < n; i++ {
 		if !r.Mine(i) {
 			continue
